@@ -65,6 +65,12 @@ Family(deep) == UNION {{[table |-> t.name, side |-> t.side, n |-> k] :
 (* structure, or not be a readable file                                                                        *)
 Degenerate == {"empty", "magic_only", "header_only", "data_only", "no_endsec", "no_end_marker", "missing_file", "directory", "nul_bytes", "binary_noise"}
 
+(* the same on the EXPRESS side: a text that ends inside a token - the scanner reads ahead for the end of a tail   *)
+(* remark, a string, an encoded string, an embedded remark, a number - or that is not a schema text at all         *)
+DegenerateExpress == {"empty", "no_final_newline", "eof_in_tail_remark", "eof_in_remark_after_semicolon", "eof_in_string",
+                      "eof_in_encoded_string", "eof_in_embedded_remark", "eof_in_nested_remark", "eof_in_real", "eof_after_minus",
+                      "eof_in_identifier", "nul_bytes", "binary_noise", "only_newlines", "missing_file", "directory"}
+
 (* illegal entity combinations: the parts of an externally mapped instance may name entities the schema knows    *)
 (* (CBASE, CPA, CPB of schemas/rt.exp), entities it does not know, the same entity twice, in any order; the       *)
 (* reader sorts the names, drops the unknown ones and matches the rest against the supertype constraints         *)
